@@ -658,3 +658,143 @@ def run_case(rp, case, max_lines=400, max_steps=600):
     }
     return {'steps': steps, 'sched': sched_run, 'quiescent': quiescent, 'final': final,
             'anomalies': world.anomalies[:5]}
+
+
+# ------------------------------------------------------------------------------
+# Coq literals of cases and observations, and the case generators (shared by
+# harness/c07.py and by the executor part of C08)
+#
+from . import coqlit as L      # noqa: E402
+
+FAULT_C = {'none': 'FNone', 'nolauncher': 'FNoLauncher', 'script': 'FScript', 'spawn': 'FSpawn',
+           'afterspawn': 'FAfterSpawn'}
+STATE_C = {'AGENT_EXECUTING': 'SExecuting', 'CANCELED': 'SCanceled', 'FAILED': 'SFailed',
+           'AGENT_STAGING_OUTPUT_PENDING': 'SStaging'}
+TGT_C = {None: 'TgNone', 'DONE': 'TgDone', 'FAILED': 'TgFailed', 'CANCELED': 'TgCanceled'}
+TH_C = {'I': 'ThI', 'C': 'ThC', 'W': 'ThW', 'T': 'ThT', 'X': 'ThX'}
+CH_C = {'I': 'CI', 'C': 'CC', 'W': 'CW', 'T': 'CT'}
+
+
+# ------------------------------------------------------------------ literals
+def lit_scenario(case):
+    bs = L.lst([L.lst(['(mkTd %s %s %s)' % (L.Z(t['uid']), FAULT_C[t.get('fault', 'none')],
+                                            L.boolean(t.get('timeout', False))) for t in b])
+                for b in case['batches']])
+    cs = L.lst([L.zlist(m) for m in case.get('cancels', [])])
+    return '(mkSc %s %s)' % (bs, cs)
+
+
+def lit_choice(ch):
+    if isinstance(ch, list):
+        return '(CX %s %s)' % (L.Z(ch[1]), L.Z(ch[2]))
+    return CH_C[ch]
+
+
+def lit_sched(s):
+    return L.lst([lit_choice(c) for c in s])
+
+
+def lit_emission(e):
+    if e[0] == 'A':
+        items = L.lst(['(%s, %s, %s)' % (L.Z(u), L.opt(L.Z(c)) if isinstance(c, int) else 'None',
+                                         TGT_C.get(t, 'TgNone')) for u, c, t in e[2]])
+        return '(EAdv %s %s %s)' % (STATE_C.get(e[1], 'SOther'), items, L.boolean(e[3]))
+    if e[0] == 'U':
+        return '(EUns %s)' % L.zlist(e[1])
+    return 'EPub'
+
+
+def lit_obs(steps):
+    return L.lst(['(%s, %s, %s)' % (TH_C[t], L.lst(['(%s, %s, %s)' % (L.Z(k), L.Z(u), L.Z(a)) for k, u, a in es]),
+                                    L.lst([lit_emission(m) for m in ms])) for t, es, ms in steps])
+
+
+def lit_pstate(st, rc):
+    return {'none': 'PNone', 'running': 'PRunning', 'killed': 'PKilled'}.get(st) or '(PExited %s)' % L.Z(rc)
+
+
+def delivered(case):
+    return [t['uid'] for b in case['batches'] for t in b]
+
+
+def lit_final(case, fin):
+    dl = delivered(case)
+    w = {u: (st, rc) for u, st, rc in fin['world']}
+    return '(%s, %s, %s, %s)' % (
+        L.zlist([u for u in dl if u in fin['tasks']]), L.zlist([u for u in dl if u in fin['procattr']]),
+        L.zlist(fin['clist']),
+        L.lst(['(%s, %s)' % (L.Z(u), lit_pstate(*w.get(u, ('none', None)))) for u in dl]))
+
+
+# ------------------------------------------------------------------ generators
+def gen_scenario(rng, ntasks=None):
+    n = ntasks or rng.choice([1, 1, 2, 2, 2, 3])
+    uids = list(range(1, n + 1))
+    tds = []
+    for u in uids:
+        f = 'none' if rng.random() < 0.7 else rng.choice(FAULTS[1:])
+        tds.append({'uid': u, 'fault': f, 'timeout': rng.random() < 0.3})
+    # one or two batches
+    if n > 1 and rng.random() < 0.4:
+        k = rng.randint(1, n - 1)
+        batches = [tds[:k], tds[k:]]
+    else:
+        batches = [tds]
+    cancels = []
+    r = rng.random()
+    if r < 0.75:
+        for _ in range(1 if rng.random() < 0.8 else 2):
+            m = [u for u in uids if rng.random() < 0.6] or [rng.choice(uids)]
+            if rng.random() < 0.08:
+                m.append(9)                      # a uid the executor never sees
+            cancels.append(m)
+    exits = {str(u): rng.choice([0, 0, 1, 3]) for u in uids}
+    return {'batches': batches, 'cancels': cancels, 'exit_codes': exits}
+
+
+def gen_sched(rng, sc, length=None):
+    uids = delivered(sc)
+    length = length or rng.randint(10, 70)
+    w = [rng.choice([0.2, 1, 1, 2, 4]) for _ in range(4)]
+    px = rng.choice([0.0, 0.03, 0.08, 0.2])
+    out = []
+    for _ in range(length):
+        if rng.random() < px:
+            u = rng.choice(uids)
+            out.append(['X', u, int(sc['exit_codes'].get(str(u), 0))])
+        else:
+            out.append(rng.choices(THREADS, weights=w)[0])
+        if rng.random() < 0.05:
+            w = [rng.choice([0.2, 1, 1, 2, 4]) for _ in range(4)]
+    return out
+
+
+
+def coq_row_args(case, obs):
+    """the arguments `sc sched obs q fin` of Exec.Oracle.c07_row / c08_exec_row"""
+    return '%s %s %s %s %s' % (lit_scenario(case), lit_sched(obs['sched']), lit_obs(obs['steps']),
+                               L.boolean(obs['quiescent'] and not obs['anomalies']), lit_final(case, obs['final']))
+
+
+C07_CLAUSES = ['announced_once', 'handed_on_once', 'unscheduled_once', 'not_collected_and_canceled',
+               'outcome_attached', 'announced_before_handed_on', 'exit_code_truthful']
+C08_EXEC_CLAUSES = ['named_end', 'canceled_means_stopped', 'later_met', 'bystanders_untouched']
+COQ_HEADER = 'From RP Require Import Exec.Model Exec.Oracle.'
+
+
+def c08_exec_row(case, obs):
+    """Coq expression : list bool = [corr; named_end; canceled_means_stopped; later_met; bystanders_untouched]"""
+    return '(c08_exec_row %s)' % coq_row_args(case, obs)
+
+
+def gen_cancel_cases(rng, n):
+    """C08: scenarios with bystanders; the request is registered at a seed-chosen point of the schedule
+    (before the intake, between placement and launch, while running, after exit)"""
+    for _ in range(n):
+        sc = gen_scenario(rng, rng.choice([2, 3]))
+        uids = delivered(sc)
+        named = [u for u in uids if rng.random() < 0.5] or [uids[0]]
+        if len(named) == len(uids):
+            named = named[:-1]
+        sc['cancels'] = [named]
+        yield dict(sc, sched=gen_sched(rng, sc))
